@@ -196,6 +196,26 @@ func wfRunnerLabels(r *hx.Rng) string {
 	return "on: push\njobs:\n  a:\n    runs-on: [" + strings.Join(ls, ", ") + "]\n    steps:\n      - run: echo\n"
 }
 
+// wfEnvOrder: several env:/with: entries of one step whose checks can influence each other only
+// through state leaking between expressions (env and with are Go maps: visited in random order)
+func wfEnvOrder(r *hx.Rng) string {
+	rows := []string{"          - []\n          - [{name: foo}, {name: bar}]\n", "          - [{name: a}]\n          - []\n", "          - [1, 2]\n          - []\n"}
+	exprs := []string{"toJSON(matrix.pkgs.*.name)", "toJSON(matrix.pkgs.name)", "matrix.pkgs[0].name", "matrix.pkgs.*", "join(matrix.pkgs.*.name, ',')", "matrix.pkgs.name", "matrix.pkgs.*.id"}
+	var b strings.Builder
+	b.WriteString("on: push\njobs:\n  build:\n    strategy:\n      matrix:\n        pkgs:\n" + r.Pick(rows))
+	b.WriteString("    runs-on: ubuntu-latest\n    steps:\n      - run: echo\n        env:\n")
+	n := 3 + r.Intn(4)
+	for i := 0; i < n; i++ {
+		fmt.Fprintf(&b, "          E%d: ${{ %s }}\n", i, r.Pick(exprs))
+	}
+	b.WriteString("      - uses: actions/checkout@v4\n        with:\n")
+	for i, k := range []string{"ref", "path", "token"} {
+		_ = i
+		fmt.Fprintf(&b, "          %s: ${{ %s }}\n", k, r.Pick(exprs))
+	}
+	return b.String()
+}
+
 // mostInputs returns the popular action spec with the largest number of required inputs.
 func requiredRich() (string, *actionlint.ActionMetadata) {
 	best, bn := "", -1
@@ -543,6 +563,9 @@ func main() {
 		src := wfNeedsCycles(r)
 		sum.Dist["site_needs_cycles"]++
 		check("site:needs-cycles:"+src, "generated needs workflow", src, func(rep int) result { return lintContent("gen.yaml", []byte(src), rep) })
+		src3 := wfEnvOrder(r)
+		sum.Dist["site_env_order"]++
+		check("site:env-order:"+src3, "generated env/with workflow", src3, func(rep int) result { return lintContent("gen.yaml", []byte(src3), rep) })
 		src2 := wfRunnerLabels(r)
 		sum.Dist["site_runner_labels"]++
 		check("site:runner-labels:"+src2, "generated runs-on workflow", src2, func(rep int) result { return lintContent("gen.yaml", []byte(src2), rep) })
